@@ -67,6 +67,12 @@ class BoundMethod:
         self.name = name
 
 
+class FuncBound:
+    def __init__(self, obj, info):
+        self.obj = obj
+        self.info = info
+
+
 class ArrMethod:
     def __init__(self, arr, name):
         self.arr = arr
@@ -106,6 +112,16 @@ class ExistsV:
         self.n = n
         self.body = body
         self.elem = elem
+
+
+class PyObjV:
+    """an object whose attributes are interpreter values held in a Python dict (used when the object's shape is concrete,
+    e.g. a Covout with n programs); methods and properties are still the real ones, read from the parsed class"""
+
+    def __init__(self, cls, module, fields):
+        self.cls = cls
+        self.module = module
+        self.fields = fields
 
 
 class OptV:
@@ -1061,6 +1077,17 @@ class Interp:
     def get_attr(self, v, attr, node=None):
         if isinstance(v, ObjV):
             return self.obj_attr(v, attr, node)
+        if isinstance(v, PyObjV):
+            if attr in v.fields:
+                return v.fields[attr]
+            fi = v.module.resolve_method(v.cls, attr)
+            if fi is None:
+                if self.definedness:
+                    self.oblige("defined", "attribute-exists:%s@L%s" % (attr, getattr(node, "lineno", "?")), False, getattr(node, "lineno", None), note="AttributeError: %s has no attribute %s" % (v.cls, attr))
+                raise _Raise("AttributeError", node)
+            if fi.is_property:
+                return self.call_function(fi, [v], {}, node)
+            return FuncBound(v, fi)
         if isinstance(v, ModuleV):
             return self.module_attr(v, attr)
         if isinstance(v, ClassV):
@@ -2037,7 +2064,9 @@ class Interp:
                 self.assign_target(tt, vv, env)
         elif isinstance(t, ast.Attribute):
             o = self.eval(t.value, env)
-            if isinstance(o, ObjV):
+            if isinstance(o, PyObjV):
+                o.fields[t.attr] = v
+            elif isinstance(o, ObjV):
                 self.write_field(o, t.attr, v, t)
             elif isinstance(o, Opaque):
                 raise Unsupported("attribute store on opaque value")
